@@ -3,6 +3,7 @@ import HdModel.Model.DnsDriver
 import HdModel.Model.SniDriver
 import HdModel.Model.SniffDriver
 import HdModel.Model.EyeballsDriver
+import HdModel.Model.TimeoutDriver
 /-! Line-protocol driver.  One case per line:
       `<stream> <input tokens…> | <implementation observation tokens…>`
     Output, one line per case:
@@ -20,6 +21,7 @@ def handle (line : String) : String :=
     | "sni" :: rest => Sni.driverLine rest obs
     | "sniff" :: rest => Sniff.driverLine rest obs
     | "eb" :: rest => Eyeballs.driverLine rest obs
+    | "to" :: rest => Timeout.driverLine rest obs
     | _ => (false, false, "unknown-stream", "")
   s!"{boolTok r.1} {boolTok r.2.1} {r.2.2.1} | {r.2.2.2}"
 
